@@ -186,3 +186,16 @@ def assemble_scenario(scn):
     v, ms = entities(scn, vec, mods)
     perm = scn.get("perm") or list(range(len(ms)))
     return run_assemble(v, [ms[i] for i in perm])
+
+
+def qual1(f, key, default=""):
+    """first value of a qualifier that may be stored as a plain string or as a list"""
+    v = f.qualifiers.get(key, default)
+    if isinstance(v, (list, tuple)):
+        return v[0] if v else default
+    return v
+
+
+def is_generated_source(f):
+    """provenance feature added by the assembly (type 'source', label 'source: <id>')"""
+    return f.type == "source" and str(qual1(f, "label")).startswith("source: ") and "plasmid" in f.qualifiers
